@@ -247,6 +247,8 @@ MayUpdate(cfg, s) == s.nupd = 0 \/ ~AllReached(cfg, s)
 (*              the chain                                                  *)
 (*   keyTime    a pull-based component is "revisited" only when it is      *)
 (*              asked for the same time again                              *)
+(*   depmax     an output needed by several inputs is needed for the latest *)
+(*              of their request times                                     *)
 RECURSIVE DrvReq(_, _, _, _, _, _, _)
 DrvReq(impl, ch, sts, j, T, cur, t0) ==   \* walk upstream from position j, cur = local_time so far
   IF j > Len(ch) THEN [t |-> cur, nodep |-> FALSE]
@@ -272,7 +274,8 @@ DrvDeps(impl, cfg, s, c, T, i, acc) ==
            acc2 == IF ~wanted THEN acc
                    ELSE IF J = {} THEN Append(acc, [p |-> p, t |-> r.t])
                    ELSE LET k == CHOOSE x \in J : TRUE
-                        IN IF r.t > acc[k].t THEN [acc EXCEPT ![k].t = r.t] ELSE acc
+                        IN IF (IF impl.depmax THEN r.t > acc[k].t ELSE r.t < acc[k].t)
+                           THEN [acc EXCEPT ![k].t = r.t] ELSE acc
        IN DrvDeps(impl, cfg, s, c, T, i + 1, acc2)
 
 RECURSIVE Desc(_, _, _, _, _, _)
@@ -314,6 +317,6 @@ RunImpl(impl, cfg, s, h) ==
             IF ~u.ok THEN [ph |-> "err", time |-> s.time, h |-> h]
             ELSE RunImpl(impl, cfg, u.s, [h EXCEPT ![r.c] = Append(@, u.log)])
 
-Intended == [compose |-> TRUE, aboveBuf |-> TRUE, popPull |-> TRUE, keyTime |-> TRUE]
+Intended == [compose |-> TRUE, aboveBuf |-> TRUE, popPull |-> TRUE, keyTime |-> TRUE, depmax |-> TRUE]
 
 =============================================================================
